@@ -42,6 +42,9 @@ type config struct {
 	// one, so they are free text: "" = t<n>; "nested" = pairs of ids of which one is the other plus "::retry" (the
 	// separator the concurrency quota uses inside its set members); "free" = spaces, colons, non-ASCII; "colon" = t<n>: (a trailing colon)
 	IDs string `json:"id_style,omitempty"`
+	// Attempts: which transactions are retried attempts of an earlier sequence, i.e. carry a sequence id that is
+	// not their own id ("" none, "odd" every second one, "all")
+	Attempts string `json:"retried_attempts,omitempty"`
 	// LogLevel: the gateway's log level (LOG_LEVEL), output discarded; "" / "off" = logging disabled
 	LogLevel string `json:"log_level,omitempty"`
 	// RespFails: the handling of every response fails inside the flow's response direction, before the quota's end
@@ -68,6 +71,9 @@ func (c config) quotaURLs() (mainURL, secondURL string) {
 
 // idStyle is the id style of the case that is running (set where the case starts, like the clock)
 var idStyle string
+
+// seqStyle: which transactions of the running case carry a sequence id different from their id (config.Attempts)
+var seqStyle string
 
 // idAlias: transactions that carry the id of an earlier, ended transaction (set while a case runs)
 var idAlias = map[int]int{}
@@ -319,6 +325,7 @@ func genConfig() *rapid.Generator[config] {
 		c.Cluster = rapid.SampledFrom([]string{"none", "none", "gw-7f3a", "", ""}).Draw(t, "cluster")
 		c.IDs = rapid.SampledFrom([]string{"", "", "", "nested", "nested", "free", "colon"}).Draw(t, "ids")
 		c.LogLevel = loglevel.Gen().Draw(t, "log level")
+		c.Attempts = rapid.SampledFrom([]string{"", "", "odd", "all"}).Draw(t, "retried attempts")
 		return c
 	})
 }
@@ -503,7 +510,11 @@ func txn(id int, early bool, now time.Time) engine.Txn {
 	if early {
 		h["x-early"] = "1"
 	}
-	return engine.Txn{ID: txName(id), Method: "GET", URL: "h.com/c", Path: "/c", Headers: h, Time: now, Status: 200}
+	tx := engine.Txn{ID: txName(id), Method: "GET", URL: "h.com/c", Path: "/c", Headers: h, Time: now, Status: 200}
+	if seqStyle == "all" || (seqStyle == "odd" && id%2 == 1) {
+		tx.Seq = "first-attempt-of-" + tx.ID // a retried attempt: the sequence id is the id of the first attempt
+	}
+	return tx
 }
 
 type infraErr struct{ msg string }
@@ -554,8 +565,8 @@ func runHistoryAtLevel(h hist) (nontrivial bool, classes map[string]int, err err
 	engine.SetClock(clk)
 	engine.SetCluster(h.Config.Cluster)
 	defer engine.SetCluster("none")
-	idStyle, idAlias = h.Config.IDs, map[int]int{}
-	defer func() { idStyle, idAlias = "", map[int]int{} }()
+	idStyle, idAlias, seqStyle = h.Config.IDs, map[int]int{}, h.Config.Attempts
+	defer func() { idStyle, idAlias, seqStyle = "", map[int]int{}, "" }()
 	metrics := engine.NewMetrics()
 	defer metrics.Close()
 	dir, e := engine.NewDir(scratch)
@@ -726,6 +737,9 @@ func runHistoryAtLevel(h hist) (nontrivial bool, classes map[string]int, err err
 			ended[id] = true
 			m.release(id)
 			classes["release:early"]++
+			if seqStyle == "all" || (seqStyle == "odd" && id%2 == 1) {
+				classes["release:early of a retried attempt (id != sequence id)"]++
+			}
 			releasedSinceFull = true
 		}
 		return nil
@@ -943,6 +957,8 @@ func TestRegressionFixedDefects(t *testing.T) {
 		// a request id that contains the separator of the set members ("order-1::retry"): never collected after its expiry (4be2760)
 		{Config: config{Max: 1, IDs: "nested"}, Steps: []step{{Op: "req", Txn: 2}, adv(30 * time.Second), adv(60 * time.Second), {Op: "req", Txn: 3}}},
 		{Config: config{Max: 2, ExpireSec: 2, GCSec: 1, IDs: "free"}, Steps: []step{{Op: "req", Txn: 1}, {Op: "req", Txn: 2}, adv(3 * time.Second), {Op: "req", Txn: 3}, {Op: "req", Txn: 4}}},
+		// a retried attempt (its sequence id is not its id) that the gateway answers itself gives its slot back (seeded change C02-14)
+		{Config: config{Max: 1, Attempts: "all"}, Steps: []step{{Op: "early", Txn: 1}, {Op: "req", Txn: 2}}},
 	}
 	for _, h := range cases {
 		r.Case()
